@@ -616,12 +616,34 @@ def operator_pairs():
     return out
 
 
+STR_PIECES = ["a", "b", "xy", " ", "1", "+", "\\\"", "\\\\", "\\n", "\\t", "\\'", "\\?", "'", "%"]
+
+
+def string_bodies(rng, n):
+    """raw bodies (text between the outer quotes): escaped quotes / backslashes at the start, in the middle, at the
+    END and as the whole body, plus random concatenations of pieces"""
+    q, b = "\\\"", "\\\\"
+    out = [q, q + "x", "x" + q + "y", "x" + q, "ends with " + q + "quote" + q, q + q, q + "x" + q,
+           b, b + "x", "x" + b + "y", "x" + b, b + b, b + q, q + b, "x" + b + q, "say " + q + "hi" + q + " twice" + q,
+           "\\n", "x\\n", "\\t\\t", "it's", "'", "?" ]
+    for _ in range(n):
+        k = rng.randrange(1, 6)
+        body = "".join(rng.choice(STR_PIECES) for _ in range(k))
+        if rng.random() < 0.5:
+            body += rng.choice([q, b, q + q, b + q])
+        out.append(body)
+    return out
+
+
 def literal_cases(rng, n):
     out = []
     strs = ["", "abc", "hello world", "a\\\"b", "tab\\tx", "back\\\\slash", "q\\'s", "new\\nline", "x+y*(z)", "100%",
             "\\?", "C:/dir/file.mo", "a\\\\", "if then else"]
-    for s in strs:
+    for s in strs + string_bodies(rng, max(10, n // 2)):
         out.append(["str", s])
+        out.append(["call", rng.choice(["f", "print", "assertMsg"]), [["str", s]]])
+        out.append(["call", "g", [["var", "a"], ["str", s]]])
+        out.append(["binding", ["str", s]])
     for t in INTS + REALS + ["0.0", "5e0", "1.e1", "00.50", "9007199254740993", "1.7976931348623157e308", "4.9e-300",
                              "123456789.123456789", "1E5", "0e0"]:
         out.append(["num", t])
@@ -669,7 +691,23 @@ def model_text(toks):
 
 
 def make_case(kind, tree, toks, mode):
+    if tree is not None and tree[0] == "binding":
+        # the literal is the value bound in a parameter declaration; the observed tree is that binding
+        tree = tree[1]
+        toks = p_expression(tree)
+        decl = "Real a, y; parameter String s = %s;" % " ".join(toks)
+        return {"kind": kind, "mode": "binding", "tree": tree, "tokens": toks, "binding": True,
+                "text": "model M %s equation y = a; end M;" % decl}
     return {"kind": kind, "mode": mode, "tree": tree, "tokens": toks, "text": model_text(toks)}
+
+
+def observed(case, res):
+    """the serialised tree the case is about: the equation's right-hand side, or the declaration binding"""
+    return res.get("binding") if case.get("binding") else res.get("tree")
+
+
+def child_input(c):
+    return {"text": c["text"], "binding": bool(c.get("binding"))}
 
 
 def points(seed_text, n=4):
@@ -690,7 +728,7 @@ def judge(case, res):
         return "parser-crash", "the parser process died (%s)" % res["crash"]
     if "exc" in res:
         return "parser-exception:" + res["exc"], "parser raised %s: %s" % (res["exc"], res.get("msg", ""))
-    t = res.get("tree")
+    t = observed(case, res)
     if t is None:
         return "rejected", "the text was rejected (no tree)"
     gen = case["tree"]
@@ -701,9 +739,14 @@ def judge(case, res):
             if x != y:
                 if x[0] == "str" and y[0] == "str":
                     raws = [s[1] for s in subtrees(gen) if s[0] == "str"]
-                    if any(y[1] == raw and raw != decode_string(raw) for raw in raws):
+                    # known finding = EXACTLY the raw body between the outer quotes (escapes kept, nothing lost
+                    # or added); any other result is a violation of its own
+                    if len(raws) == 1 and y[1] == raws[0] and raws[0] != decode_string(raws[0]):
                         return "string-escape-not-decoded", "string literal %r parsed to %r, exact value is %r" % (
                             '"%s"' % y[1], y[1], x[1])
+                    return "string-literal-altered", (
+                        "string literal %r parsed to %r: neither its exact value %r nor its raw body %r "
+                        "(characters lost or added)" % (['"%s"' % r for r in raws], y[1], x[1], raws))
                 return "literal-value", "leaf %r parsed as %r" % (x, y)
         return "leaves", "leaves differ: %r vs %r" % (lg[:6], lr[:6])
     if any(s[0] == "str" for s in subtrees(gen)):
@@ -817,9 +860,10 @@ def encode(case, res):
     toks = cq_list([cq_tok(t, ids) for t in case["tokens"]])
     if "tree" not in res:
         return None
-    if res["tree"] is None:
+    obs = observed(case, res)
+    if obs is None:
         return "(%s, None)" % toks
-    o = cq_oexpr(res["tree"], ids)
+    o = cq_oexpr(obs, ids)
     if o is None:
         return None
     return "(%s, Some %s)" % (toks, o)
@@ -841,7 +885,7 @@ def shrink(ctx, case, tag):
             cands.append(make_case(case["kind"], s, toks, "min"))
     if not cands:
         return case
-    res = core.run_child(ctx, "c03", cands)
+    res = core.run_child(ctx, "c03", [child_input(c) for c in cands])
     for c, r in zip(cands, res):
         j = judge(c, r)
         if j and j[0] == tag:
@@ -857,7 +901,7 @@ def known_still_fails(ctx):
             return None
         toks = p_expression(tree)
         c = make_case("known", tree, toks, "min")
-        r = core.run_child(ctx, "c03", [c])[0]
+        r = core.run_child(ctx, "c03", [child_input(c)])[0]
         j = judge(c, r)
         return bool(j and j[0] == entry.get("tag"))
     return f
@@ -929,7 +973,7 @@ def run(ctx):
         if len(toks) <= 90:
             cases.append(make_case("untyped", tp, toks, mode))
     for t in literal_cases(rng, 40 if not big else 600):
-        cases.append(make_case("literal", t, p_expression(t), "min"))
+        cases.append(make_case("literal", t, [] if t[0] == "binding" else p_expression(t), "min"))
     spec_n = len(cases)
     nd = 0
     tries = 0
@@ -944,7 +988,7 @@ def run(ctx):
                 "a and not p or q", "not a < b", "- a ^ b", "- a * b", "a / - b * c", "a .^ b ./ c", "+ a .* b"]:
         cases.append(make_case("dialect", None, txt.split(), "hand"))
 
-    results = core.run_child(ctx, "c03", [{"text": c["text"]} for c in cases], timeout=1500)
+    results = core.run_child(ctx, "c03", [child_input(c) for c in cases], timeout=1500)
 
     # ---- (a) property oracle -------------------------------------------------------------
     nontrivial = set()
@@ -971,12 +1015,13 @@ def run(ctx):
         known = any(e.get("tag") == tag for e in core.load_known(ctx.pid))
         if not known and tag in ("value", "rejected", "bad-tree") and size(c["tree"]) > 3:
             c = shrink(ctx, c, tag)
-            r = core.run_child(ctx, "c03", [{"text": c["text"]}])[0]
+            r = core.run_child(ctx, "c03", [child_input(c)])[0]
             j = judge(c, r)
             why = j[1] if j else why
         else:
             r = results[i]
-        core.report(ctx, tag, why, {"input": {"text": c["text"], "expr": " ".join(c["tokens"]), "tree": c["tree"]},
+        core.report(ctx, tag, why, {"input": {"text": c["text"], "expr": " ".join(c["tokens"]), "tree": c["tree"],
+                                              "binding": bool(c.get("binding"))},
                                     "observed": r})
 
     # ---- (b) correspondence ----------------------------------------------------------------
@@ -1042,14 +1087,15 @@ def replay(ctx, path):
     rec = json.load(open(path))
     inp = rec.get("input") or {}
     if inp.get("tree"):
-        c = make_case("replay", inp["tree"], p_expression(inp["tree"]), "min")
+        tr = ["binding", inp["tree"]] if inp.get("binding") else inp["tree"]
+        c = make_case("replay", tr, p_expression(inp["tree"]), "min")
         c["text"] = inp.get("text", c["text"])
-        r = core.run_child(ctx, "c03", [{"text": c["text"]}])[0]
+        r = core.run_child(ctx, "c03", [child_input(c)])[0]
         j = judge(c, r)
         print("replay: %s" % (("%s: %s" % j) if j else "property holds on this input"), "| expr:", " ".join(c["tokens"]))
         return 1 if j else 0
     if inp.get("text"):
-        r = core.run_child(ctx, "c03", [{"text": inp["text"]}])[0]
+        r = core.run_child(ctx, "c03", [{"text": inp["text"], "binding": bool(inp.get("binding"))}])[0]
         same = r == rec.get("observed")
         print("replay (correspondence input, no oracle verdict): parser returns %s; %s the recorded observation"
               % (json.dumps(r)[:300], "same as" if same else "differs from"))
